@@ -98,6 +98,13 @@ func (w *World) transparent(h *ssa.Function) bool {
 		return false
 	}
 	if h.Synthetic != "" {
+		// the per-type entry of a generic helper (it only converts and calls the generic body) is as transparent as
+		// the helper itself
+		if strings.HasPrefix(h.Synthetic, "instantiation wrapper") {
+			if o := h.Origin(); o != nil && o != h {
+				return w.transparent(o)
+			}
+		}
 		return false
 	}
 	return !token.IsExported(h.Name())
@@ -270,7 +277,41 @@ func (w *World) dynCallable(g *ssa.Function) bool {
 		if token.IsExported(g.Name()) {
 			return true // may implement an interface of a dependency (io.Closer, agent.Agent, ...)
 		}
-		return w.ifaceMethodNames[g.Name()]
+		if !w.ifaceMethodNames[g.Name()] {
+			return false
+		}
+		// the generic body of a method is entered through its instances only (their entries are functions of their own)
+		if o := g.Origin(); (o == nil || o == g) && g.Signature.Recv() != nil {
+			if n := derefNamedT(g.Signature.Recv().Type()); n != nil && n.TypeParams().Len() > 0 && n.TypeArgs().Len() == 0 {
+				return false
+			}
+		}
+		// an unexported method is reached through an interface only if its receiver's type implements one whose
+		// method of that name is invoked somewhere in the repository
+		if w.ifaceByMethod == nil {
+			w.ifaceByMethod = map[string][]*types.Interface{}
+			for _, fn := range w.repoFns {
+				for _, b := range fn.Blocks {
+					for _, ins := range b.Instrs {
+						if c, ok := ins.(ssa.CallInstruction); ok && c.Common().IsInvoke() {
+							if it, ok := c.Common().Value.Type().Underlying().(*types.Interface); ok {
+								w.ifaceByMethod[c.Common().Method.Name()] = append(w.ifaceByMethod[c.Common().Method.Name()], it)
+							}
+						}
+					}
+				}
+			}
+		}
+		rt := g.Signature.Recv().Type()
+		for _, it := range w.ifaceByMethod[g.Name()] {
+			if types.Implements(rt, it) {
+				return true
+			}
+			if _, isPtr := rt.Underlying().(*types.Pointer); !isPtr && types.Implements(types.NewPointer(rt), it) {
+				return true
+			}
+		}
+		return false
 	}
 	return false
 }
